@@ -12,11 +12,6 @@ import (
 // can be stored and passed around; any inspection aborts the path (or, during
 // init, poisons the dependent value).
 func init() {
-	opaque := func(tag string) Intrinsic {
-		return func(m *Machine, fr *frame, fn *ssa.Function, args []Value) Value {
-			return &Opaque{Tag: tag, Data: args}
-		}
-	}
 	// reflect.TypeOf(x): a reflect.Type interface value that is nil exactly when
 	// x is the nil interface; otherwise an opaque handle carrying x's dynamic type
 	// (identity comparison and == nil are the only supported uses).
@@ -29,8 +24,6 @@ func init() {
 	}
 	register("reflect.TypeOf", typeOf)
 	register("internal/reflectlite.TypeOf", typeOf)
-	register("time.Date", opaque("time.Time"))
-	register("(time.Time).UTC", opaque("time.Time"))
 	register("time.LoadLocation", func(m *Machine, fr *frame, fn *ssa.Function, args []Value) Value {
 		return Tuple{&Opaque{Tag: "*time.Location"}, Iface{}}
 	})
